@@ -84,6 +84,14 @@ def operands():
     out.append(Opd('SpatialInertia', 'SpatialInertia', lambda: sm.SpatialInertia(2.0, [0.1, 0.2, 0.3], np.diag([1.0, 2, 3]))))
     out.append(Opd('DualQuaternion', 'DualQuaternion', lambda: sm.DualQuaternion(sm.Quaternion([1, 2, 3, 4]), sm.Quaternion([0.5, -1, 2, 1]))))
     out.append(Opd('UnitDualQuaternion', 'UnitDualQuaternion', lambda: sm.UnitDualQuaternion(sm.SE3(1, 2, 3) * sm.SE3.Rx(0.3))))
+    # operands whose VALUE is special while their class is the general one (dispatch must go by class): a plain dual quaternion / quaternion
+    # of unit norm (what conj(), Pure() or a product of unit ones return), the identity pose, the zero twist
+    out.append(Opd('DualQuaternion(unit)', 'DualQuaternion', lambda: (lambda u: sm.DualQuaternion(u.real, u.dual))(sm.UnitDualQuaternion(sm.SE3(1, 2, 3) * sm.SE3.Rx(0.3)))))
+    out.append(Opd('DualQuaternion(1)', 'DualQuaternion', lambda: sm.DualQuaternion(sm.Quaternion([1, 0, 0, 0]), sm.Quaternion([0, 0, 0, 0]))))
+    out.append(Opd('Quaternion(unit)[1]', 'Quaternion', lambda: sm.Quaternion([0.5, 0.5, -0.5, 0.5])))
+    out.append(Opd('SE3(I)[1]', 'SE3', lambda: sm.SE3(), 1))
+    out.append(Opd('SO3(I)[1]', 'SO3', lambda: sm.SO3(), 1))
+    out.append(Opd('Twist3(0)[1]', 'Twist3', lambda: sm.Twist3(), 1))
     out.append(Opd('int', 'int', lambda: 2))
     out.append(Opd('float', 'float', lambda: 0.5))
     out.append(Opd('np.float64', 'np.float64', lambda: np.float64(1.5)))
@@ -404,6 +412,9 @@ def _run_pair(ctx, L, R, alias):
                 if L.cls == 'Plucker' and opn in ('^', '|'):
                     continue
                 got = v if nexp == 1 else v[0]
+                special = lambda o: '(' in o.name       # the special-valued operands hold other values than the class's [1] / [3] letters
+                if L.name != R.name and (special(L) or special(R)):
+                    continue
                 same = (L.name == R.name) or (L.cls == R.cls and L.cls != 'Plucker')      # [1] and [3] share their first value
                 if same and bool(got) != (opn == '=='):
                     ctx.fail(cid, site, 'mismatch', P, '%s %s %s gives %r for equal first values' % (L.name, opn, R.name, got))
